@@ -97,16 +97,25 @@ def run_one(s):
             else:
                 e["exc"] = r[1] if len(r) > 1 else "hang"
             ev.append(e)
+    views = set()
     for n_op, op in enumerate(s["ops"]):
         a = op["a"]
         t = heap[op["t"] - 1]
         u = heap[op["u"] - 1] if op["u"] else None
         if t is None or (op["u"] and u is None):      # operand is the result of a call that failed earlier
-            if a not in ("set", "eq", "space", "badcat") and len(heap) < 9:
+            if a not in ("set", "eq", "space", "badcat", "to") and len(heap) < 9:
                 heap.append(None)
             continue
         ins = [t] + ([u] if u is not None else [])
+        for x in ins:
+            x.coordinates          # (the per-variable view is read before every step, as user code does)
         e = {"a": a, "op": op, "ins": [tab(x) for x in ins], "exc": "", "n": op["n"], "opname": op["op"]}
+        # frame: the other tables of the heap.  Results of basic indexing and unsqueeze are VIEWS (torch semantics): they are
+        # left out, and an assignment whose target is itself a view is not framed at all
+        others = [x for x in heap if x is not None and all(x is not y for y in ins) and id(x) not in views]
+        if a == "set" and id(t) in views:
+            others = []
+        e["others"] = [tab(x) for x in others]
         out = None
         if a == "get":
             idx = index_of(op, n_op)
@@ -115,7 +124,7 @@ def run_one(s):
             sub = mk_space(s_sub(t, op["cs"]))
             base = 5000 + 10 * n_op
             v = Points(torch.tensor([[base + 100 * (r_ + 1) + (j + 1) for j in range(sub.dim)] for r_ in range(op["n"])],
-                                    dtype=torch.float64).reshape(op["n"], sub.dim), sub)
+                                    dtype=t.as_tensor.dtype).reshape(op["n"], sub.dim), sub)      # (the target's dtype: see the "to" event)
             e["v"] = tab(v)
             idx = index_of(op, n_op)
             if not isinstance(idx, tuple):
@@ -131,6 +140,8 @@ def run_one(s):
             r = watched(lambda: t | u)
         elif a == "repeat":
             r = watched(lambda: t.repeat(op["n"]))
+        elif a == "to":           # dtype conversion in place (Points.to returns the same object)
+            r = watched(lambda: t.to(torch.float32 if op["n"] == 32 else torch.float64))
         elif a == "unsq":
             r = watched(lambda: t.unsqueeze(op["n"]))
         elif a == "arith":
@@ -147,7 +158,7 @@ def run_one(s):
             raise ValueError(a)
         if r[0] != "ok":
             e["exc"] = r[1] if len(r) > 1 else "hang"
-            if a not in ("set", "eq", "space", "badcat") and len(heap) < 9:
+            if a not in ("set", "eq", "space", "badcat", "to") and len(heap) < 9:
                 heap.append(None)
         elif a == "eq":
             e["eq"] = r[1]
@@ -155,12 +166,20 @@ def run_one(s):
             e.update(r[1])
         elif a == "badcat":
             e["out"] = tab(r[1])
+        elif a == "to":
+            e["dt"] = [str(t.as_tensor.dtype)] + [str(c.dtype) for c in t.coordinates.values()]
         elif a != "set":
             out = r[1]
             e["out"] = tab(out)
+            if a in ("get", "unsq") or (ins and any(id(x) in views for x in ins) and a in ("get", "unsq")):
+                views.add(id(out))
             if len(heap) < 9:
                 heap.append(out)
         e["ins_after"] = [tab(x) for x in ins]
+        e["others_after"] = [tab(x) for x in others]
+        # the table re-assembled from the per-variable views (coordinates) of every operand: one object, two views
+        e["ins_after_co"] = [tab(Points(torch.cat([x.coordinates[v] for v in x.space], dim=-1).to(torch.float64), x.space)) if x.space.dim > 0 and x.as_tensor.numel() > 0 else tab(x)
+                             for x in ins]
         ev.append(e)
     return {"events": ev}
 
